@@ -14,16 +14,16 @@ CLAIMED = {
             "len(enc(args)) for arbitrary argument bytes (incl. CR/LF/NUL/non-UTF-8) and every strict prefix is 'need more'; deserialize(serialize(v)) = v for bounded reply "
             "trees; error replies quoting arbitrary client bytes stay one frame; the real clientCxn inbound-buffer code dispatches two pipelined commands in order for every "
             "cutting of the stream into <= 3 segments and writes cut-independent reply bytes", "5/C01"),
-    "C06": ("bounded symbolic model checking: (L2) 147 command templates covering the data commands x the target key in each of 5 type states (with/without TTL), symbolic "
+    "C06": ("bounded symbolic model checking: (L2) 182 command templates covering the data commands x the target key in each of 5 type states (with/without TTL), symbolic "
             "values and unconstrained int64 arguments through the real dispatcher, with the monitors 'error reply => every key/value/expiry unchanged', 'no empty "
             "list/hash/set', 'one type per key with matching payload', dictionary placement invariant, no panic; RENAME/RENAMENX/COPY[REPLACE] on every type incl. "
             "source = destination carrying value and expiry; DEL/UNLINK/EXISTS/TOUCH/TYPE/DBSIZE/KEYS/RANDOMKEY against the set of live keys; SORT; redisGlob against "
             "Redis' stringmatchlen for all patterns <= 3 (4) characters over the glob alphabet; SORT with BY / LIMIT (all 64-bit offsets and counts) / GET / DESC / STORE against sort.c; thorough tier: 212 argument shapes derived from the real command grammar (every optional argument and oneof alternative of every handler) under the same monitors", "5/C06"),
-    "C07": ("bounded symbolic model checking with the clock as a harness variable: for each of 147 command templates and each type of the key, the reply and resulting "
+    "C07": ("bounded symbolic model checking with the clock as a harness variable: for each of 182 command templates and each type of the key, the reply and resulting "
             "state with the key expired-but-still-stored equal those with the key missing (and read commands never list it); per-command TTL rules (30 commands: in-place "
             "modifiers keep, replacing commands clear); EXPIRE/PEXPIRE/EXPIREAT/PEXPIREAT x NX/XX/GT/LT with a symbolic argument (|n| < 3000 units around now) and exact "
             "TTL/PTTL/EXPIRETIME/PEXPIRETIME read-back; visibility 1 ms before / after the deadline; unrepresentable TTLs are refused", "5/C07"),
-    "C08": ("reduction to a per-command obligation decided by bounded symbolic execution: for 147 command templates x 5 key types the real command runs under a lock-set "
+    "C08": ("reduction to a per-command obligation decided by bounded symbolic execution: for 182 command templates x 5 key types the real command runs under a lock-set "
             "monitor over store memory (everything reachable from the data store set at command entry plus what the command publishes); every path must touch store "
             "memory only while a mutex is held and only inside one section of the database mutex (strict two-phase with one lock => every concurrent history is "
             "serialisable in lock-acquisition order); writes into the shared start-up tables are flagged as well. A violation is confirmed natively by running the command "
@@ -47,7 +47,7 @@ CLAIMED = {
             "blocking. Outside the claim: promptness after the timeout (Go runtime timers) and TCP close / CLIENT KILL delivery; the timer a block arms: exactly the timeout, exactly the remaining time after a lost race (harness clock), no reachable deadline for timeout 0, null reply and state reset when it fires; CLIENT UNBLOCK [ERROR] arriving at every schedule point of all five blocking commands: reports 1 exactly when it ends the block, is never remembered", "5/C12"),
     "C13": ("bounded symbolic model checking of the parser on every byte string up to 5 (quick) / 7 (thorough) bytes and of the length-taking parser routines for every "
             "non-negative declared count: no panic, no allocation by declared size, consumed length inside the buffer (command-level no-panic obligations are part of "
-            "the per-family checks C02-C05/C18, whose harnesses run under vCatch with unconstrained int64 arguments); every length-taking header ($ * % ~ > | ! = and the ;n chunks of streamed strings) with an arbitrary 64-bit number through the public parser entry; the command table (175 templates, thorough: + 212 grammar-derived shapes) x 5 key types with every integer argument an arbitrary 64-bit number under the no-panic / no-client-sized-allocation monitor; commands with non-bulk RESP2/RESP3 arguments; session commands queued and run by EXEC (self-deadlock = a strand that blocks for ever is reported); RESTORE with arbitrary 10..16-byte payloads (the solver produces the checksum) and DUMP/RESTORE round trips; lock order: every nested mutex acquisition of the session commands and two cross-database programs is logged by class, opposite edges and ungated nestings of two database locks are candidates, each confirmed natively by two command loops that stop making progress", "5/C13"),
+            "the per-family checks C02-C05/C18, whose harnesses run under vCatch with unconstrained int64 arguments); every length-taking header ($ * % ~ > | ! = and the ;n chunks of streamed strings) with an arbitrary 64-bit number through the public parser entry; the command table (182 templates, thorough: + 212 grammar-derived shapes) x 5 key types with every integer argument an arbitrary 64-bit number under the no-panic / no-client-sized-allocation monitor; commands with non-bulk RESP2/RESP3 arguments; session commands queued and run by EXEC (self-deadlock = a strand that blocks for ever is reported); RESTORE with arbitrary 10..16-byte payloads (the solver produces the checksum) and DUMP/RESTORE round trips; lock order: every nested mutex acquisition of the session commands and two cross-database programs is logged by class, opposite edges and ungated nestings of two database locks are candidates, each confirmed natively by two command loops that stop making progress", "5/C13"),
     "C02": ("bounded symbolic model checking of the real command path (dispatcher, grammar parser, handlers, store) for the string/counter family: "
             "SET option combinations on every key type, SETNX/GETSET/GETDEL/APPEND/STRLEN, MSET/MSETNX all-or-nothing, INCR family for all int64 "
             "old values and deltas with exact overflow, GETRANGE/SETRANGE for all int64 offsets, against a model of t_string.c; values are symbolic byte strings of <= 2-3 bytes (4-5 in the thorough tier)", "5/C02"),
@@ -67,7 +67,7 @@ CLAIMED = {
             "down-conversion, RESP2-only output types and one-frame serialisation; HELLO for all int64 protocol versions incl. frame condition on a second connection; "
             "30 commands of every reply shape executed on identical data under RESP2 and RESP3 with reply2 = downconvert(reply3)", "5/C15"),
     "C16": ("lock-set discipline decided by bounded symbolic execution, every report confirmed by the Go race detector: each session / introspection command (25 commands, "
-            "in and out of MULTI), connection tear-down, and the 147 data-command templates run under a monitor that logs every access to per-connection, global and store "
+            "in and out of MULTI), connection tear-down, and the 182 data-command templates run under a monitor that logs every access to per-connection, global and store "
             "memory with the set of mutexes held; two accesses to one field from different connections with disjoint lock sets and at least one write are a candidate pair; "
             "each pair is run concurrently (300 iterations on two connections) in a -race build and only a detector report is a violation; unconfirmed candidates are "
             "listed in the evidence. Sufficient, not necessary: races the bounded command shapes do not reach, and goroutines of the socket layer and the saver, are outside the claim", "5/C16"),
@@ -82,7 +82,7 @@ CLAIMED = {
     "C19": ("bounded symbolic model checking of the real save/load code over a file-system/gob model (files are record lists; every Create/Encode/Rename/Remove is one "
             "effect; gob's empty-slice quirk is modelled): save -> restart -> load restores keys, types, values, element order, deadlines and the version counter for a store "
             "with symbolic values of every type; a further acknowledged change out of 16 (in-place, deleting, flushing, renaming) survives a second save/restart; a save cut "
-            "after any number of effects loads as the old or the new snapshot; and (L2 dirty gate) for 147 command templates x 5 key types: state changed => store marked "
+            "after any number of effects loads as the old or the new snapshot; and (L2 dirty gate) for 182 command templates x 5 key types: state changed => store marked "
             "dirty. Counterexamples replay natively on real files with real gob", "5/C19"),
 }
 
